@@ -21,6 +21,11 @@ class Need(Exception):
         self.options = options
 
 
+class _Ret(Exception):
+    def __init__(self, v):
+        self.v = v
+
+
 class Sym:
     __slots__ = ("path", "ty")
 
@@ -273,6 +278,8 @@ class Interp:
         self.depth += 1
         try:
             return self.ev(r["hir"], env)
+        except _Ret as e_:
+            return e_.v
         finally:
             self.depth -= 1
 
@@ -284,7 +291,10 @@ class Interp:
             for p, a in zip(f.params, args):
                 if not self.bind(p, a, env):
                     raise Shape("closure parameter pattern")
-            return self.ev(f.body, env)
+            try:
+                return self.ev(f.body, env)
+            except _Ret as e_:
+                return e_.v
         raise Shape(f"call of non-function value {f!r}")
 
     # ---- patterns ---------------------------------------------------------------------------------------------
@@ -412,6 +422,8 @@ class Interp:
                     return Adt(ty, var, {str(i): a for i, a in enumerate(args)})
                 if p == "std::default::Default::default":
                     return Default(strip_ref(n[4]))
+                if p in ("std::vec::Vec::<T>::with_capacity", "std::vec::Vec::<T>::new"):
+                    return Vec(None)  # no element yet
                 if p in ("std::convert::From::from", "std::convert::Into::into") and len(args) == 1 and len(gargs) >= 2 and gargs[0] == gargs[1]:
                     return args[0]
                 return self.call_path(p, args, gargs)
@@ -430,6 +442,18 @@ class Interp:
                      "std::vec::Vec::<T, A>::as_slice", "std::ops::Deref::deref"):
                 recv = self.force(recv)
                 return recv
+            if p in ("std::vec::Vec::<T, A>::len", "std::slice::<impl [T]>::len"):
+                return Sym(("len",), "usize")
+            if p == "std::vec::Vec::<T, A>::push":
+                cur = self.force(recv)
+                val = self.ev(m["args"][0], env)
+                if isinstance(cur, Vec):
+                    if cur.elem is None:
+                        self.assign(H.strip_refs(m["recv"]), Vec(val), env)
+                        return Adt("()", None, {})
+                    if self.same(cur.elem, val) is None:
+                        return Adt("()", None, {})
+                raise Shape("push of differing elements into a vector")
             if p == "std::iter::traits::iterator::Iterator::map":
                 recv = self.force(recv)
                 f = self.ev(m["args"][0], env)
@@ -484,6 +508,26 @@ class Interp:
             raise Shape("if on a non-pattern condition")
         if t == "try":
             return self.ev(n[1], env)
+        if t == "ret":
+            raise _Ret(self.ev(n[1], env) if len(n) > 1 and n[1] is not None else Adt("()", None, {}))
+        if t == "for":
+            # a loop over a vector whose elements are all the same symbolic element: the body is evaluated once for that element;
+            # a vector filled by `push` in the body then holds the pushed value for every element
+            src = self.force(self.ev(n[2], env))
+            if isinstance(src, Vec):
+                if src.elem is None:
+                    return Adt("()", None, {})
+                e2 = Env(env)
+                fp = n[1]
+                if H.tag(fp) == "ts" and fp[1].endswith("::Some") and len(fp[2]) == 1:
+                    fp = fp[2][0]  # the dump keeps the `Some(pat)` arm of the desugared loop
+                elif H.tag(fp) == "ps" and fp[1].endswith("::Some") and len(fp[2]) == 1:
+                    fp = fp[2][0][1]
+                if not self.bind(fp, src.elem, e2):
+                    raise Shape("for pattern")
+                self.ev(n[3], e2)
+                return Adt("()", None, {})
+            raise Shape(f"for loop over {src!r}")
         raise Shape(f"expression `{t}`: {H.short(n, maxlen=100)}")
 
     def stmt(self, st, env):
